@@ -698,14 +698,15 @@ fn mask(len: u32) -> u32 { if len == 0 { 0 } else { (!0u32) << (32 - len) } }
 
 
 def router_native_replay(v):
-    """what can be observed natively without running the async forwarding task: panic / return value of demux, the route chosen by the
-    real IpTable, and the bytes of the real re-serialised header"""
+    """native run of ArpRouter::demux on a real Machine inside a tokio runtime.  Observable: panic / return value of demux, the route chosen
+    by the real IpTable, the real re-serialised header, and - through Arp's resolve_hook - whether a forward was started and with which
+    (local address, next hop, interface).  The packet bytes handed to the Pci session after ARP resolution are not observable."""
     from mirx import native
     u = v['unit']
     vals = v.get('values', {})
     g = lambda k, d=0: int(vals.get(k, d))
     n = u['routes']
-    L = ['#[tokio::test]\nasync fn mirx_replay_0() {', '    println!("\\nREPLAY-BEGIN mirx_replay_0");', '    let mut bad: Vec<String> = Vec::new();',
+    L = ['#[tokio::test(flavor = "multi_thread")]\nasync fn mirx_replay_0() {', '    println!("\\nREPLAY-BEGIN mirx_replay_0");', '    let mut bad: Vec<String> = Vec::new();',
          '    let mut table: IpTable<(Option<Ipv4Address>, PciSlot)> = IpTable::new(); let mut routes: Vec<(u32, u32, Option<u32>, u32)> = Vec::new();']
     for i in range(n):
         addr, ln, gw = g(f'raddr{i}') & 0xffffffff, min(32, g(f'rlen{i}', 24)), g(f'gw{i}') & 0xffffffff
@@ -714,18 +715,25 @@ def router_native_replay(v):
         L.append(f'    table.add(Ipv4Net::new(Ipv4Address::from({addr}u32), Ipv4Mask::from_bitcount({ln})), ({gws}, {u["slots"][i]})); routes.retain(|r| !(r.0 == {addr}u32 & mask({ln}) && r.1 == {ln})); routes.push(({addr}u32 & mask({ln}), {ln}, {gwr}, {u["slots"][i]}));')
     dst, src, ttl = g('dst') & 0xffffffff, g('src') & 0xffffffff, g('ttl') & 0xff
     npay = u['payload']
-    L.append(f'    let dst: u32 = {dst}; let ttl: u8 = {ttl};')
+    lips = [g('lip0') & 0xffffffff, g('lip1') & 0xffffffff]
+    L.append(f'    let dst: u32 = {dst}; let ttl: u8 = {ttl}; let lips: [u32; 2] = [{lips[0]}, {lips[1]}];')
     L.append('    let want = routes.iter().filter(|r| dst & mask(r.1) == r.0).max_by_key(|r| r.1).map(|r| (r.2, r.3));')
     L.append('    let got = table.get_recipient(Ipv4Address::from(dst)).map(|p| (p.0.map(|a| a.to_u32()), p.1));')
     L.append('    if got != want { bad.push(format!("route chosen by IpTable {:?}, longest-prefix reference {:?}", got, want)); }')
     L.append(f'    let h = Ipv4Header {{ ihl: 5, type_of_service: TypeOfService::from({g("tos") & 0xfc}u8), total_length: {20 + npay}, identification: {g("ident") & 0xffff}, fragment_offset: {g("frag") & 0x1fff}, flags: ControlFlags::from({g("flags") & 3}u8), time_to_live: ttl, protocol: {g("proto") & 0xff}, checksum: 0, source: Ipv4Address::from({src}u32), destination: Ipv4Address::from(dst) }};')
     L.append('    if ttl >= 2 { let mut h2 = h; h2.time_to_live = ttl - 1; let b = h2.serialize().unwrap(); if b[8] != ttl - 1 || b[0] != 0x45 || b[12..16] != h.source.to_bytes() || b[16..20] != h.destination.to_bytes() { bad.push("re-serialised header differs".into()); } }')
-    L.append('    let router = ArpRouter::new(table, vec![Ipv4Address::from(%du32), Ipv4Address::from(%du32)]);' % (g('lip0') & 0xffffffff, g('lip1') & 0xffffffff))
-    L.append('    let machine = Arc::new(Machine::new().with(Arp::new()).with(Pci::new([])));')
+    L.append('    let router = ArpRouter::new(table, vec![Ipv4Address::from(lips[0]), Ipv4Address::from(lips[1])]);')
+    L.append('    let calls: Arc<std::sync::Mutex<Vec<(u32, u32, u32)>>> = Arc::new(std::sync::Mutex::new(Vec::new())); let c2 = calls.clone();')
+    L.append('    let arp = Arp::new().resolve_hook(move |pair, slot| { c2.lock().unwrap().push((pair.local.to_u32(), pair.remote.to_u32(), slot)); });')
+    L.append('    let machine = Arc::new(Machine::new().with(arp).with(Pci::new([])));')
     L.append('    let mut control = Control::new(); control.insert(h);')
     L.append(f'    let payload: Vec<u8> = vec!{[g(f"pl{i}", 1) & 0xff for i in range(npay)]};')
     L.append('    let r = std::panic::catch_unwind(std::panic::AssertUnwindSafe(|| router.demux(Message::new(payload.clone()), Arc::new(Dummy), control, machine.clone())));')
+    L.append('    for _ in 0..20 { tokio::time::sleep(std::time::Duration::from_millis(10)).await; }')
+    L.append('    let seen = calls.lock().unwrap().clone();')
     L.append('    match r { Err(_) => bad.push("demux panicked".into()), Ok(res) => { let should_err = ttl >= 2 && want.is_none(); if res.is_err() != should_err { bad.push(format!("demux returned {:?} (ttl {}, route {:?})", res, ttl, want)); } } }')
+    L.append('    let expect: Vec<(u32, u32, u32)> = match want { Some((gw, slot)) if ttl >= 2 => vec![(lips[slot as usize], gw.unwrap_or(dst), slot)], _ => vec![] };')
+    L.append('    if seen != expect { bad.push(format!("forwards started (local, next hop, interface) = {:?}, expected {:?}", seen, expect)); }')
     L.append('    println!("OP 0 RESULT {}", if bad.is_empty() { "AGREE".to_string() } else { bad.join(" | ") });')
     L.append('}')
     out, rc = native.run_shim_tests(ROUTER_REPLAY + '\n'.join(L), module='applications/arp_router.rs', test_filter='mirx_replay_0')
@@ -733,8 +741,8 @@ def router_native_replay(v):
     if not lines:
         return False, 'native replay did not run: ' + out[-600:]
     if 'AGREE' in lines[0]:
-        return False, ('the natively observable part (panic / return value of demux, route chosen by the real IpTable, re-serialised header) agrees with the reference; '
-                       'the forward itself happens inside a spawned async task that this replay cannot observe')
+        return False, ('the natively observable part (panic / return value of demux, route chosen by the real IpTable, re-serialised header, next hop and interface of the '
+                       'started forward) agrees with the reference; the packet bytes handed on after ARP resolution are not observable by this replay')
     return True, lines[0]
 
 
@@ -748,8 +756,9 @@ def router_part(ctx):
         bounds='0..=2 (thorough 3) routes with symbolic network (mask length 0..=32) and symbolic gateway or direct route, two interfaces with symbolic local addresses; header: TOS, id, DF/MF, offset, TTL, protocol, addresses symbolic; payload 0..=3 symbolic bytes',
         outside='multi-router topologies, loops, ARP resolution and delivery to the destination host (async Arp::resolve / Network::send); "at most initial-TTL hops" follows from the one-hop decrement by the decreasing measure TTL (stated, not checked)',
         assumptions=['Machine::protocol::<Arp>() returns an opaque Arp; tokio::spawn is modelled as recording the future\'s captured variables without running it',
-                     'native replay can observe only panic / return value of demux, the real IpTable lookup and the real header re-serialisation; a violation located purely in the '
-                     'forwarding glue (which next hop / interface / packet is captured) cannot be confirmed natively and is reported INCONCLUSIVE (exit 2)'])
+                     'native replay runs demux on a real Machine in a tokio runtime and observes panic / return value, the real IpTable lookup, the real header re-serialisation and, through '
+                     'Arp::resolve_hook, the (local address, next hop, interface) of the started forward; only a violation confined to the packet bytes handed on after ARP resolution cannot be '
+                     'confirmed natively and is then reported INCONCLUSIVE (exit 2)'])
 
 
 def demux_drop_native_replay(v):
